@@ -69,33 +69,47 @@ func AmountFromString(val string) (Amount, error) {
 		return a, fmt.Errorf("amount must contain 0 or 1 decimal separators: %v", val)
 	}
 
-	// Parse the "major" part
-	v, err := strconv.ParseInt(x[0], 10, 64)
-	if err != nil {
+	if err := checkDigits(x[0]); err != nil {
 		return a, fmt.Errorf("invalid major number '%v', %w", val, err)
 	}
+	digits := x[0]
 	e := uint32(0)
-	v2 := int64(0)
-
-	// Parse the decimal places (if present)
 	if l == 2 {
-		v2, err = strconv.ParseInt(x[1], 10, 64)
-		if err != nil {
+		if err := checkDigits(x[1]); err != nil {
 			return a, fmt.Errorf("invalid decimal number '%v', %w", val, err)
 		}
+		digits += x[1]
 		e = uint32(len(x[1]))
-		v = v * intPow(10, e)
-		v += v2
 	}
 
-	// Prepare the result
+	// The complete set of digits must fit inside an int64, taking into
+	// account that the negative range is one larger than the positive.
+	v, err := strconv.ParseUint(digits, 10, 64)
+	if err != nil || v > uint64(math.MaxInt64)+1 || (!n && v > uint64(math.MaxInt64)) {
+		return a, fmt.Errorf("invalid number '%v', %w", val, &strconv.NumError{Func: "ParseInt", Num: digits, Err: strconv.ErrRange})
+	}
+
 	if n {
-		a.value = -v
+		a.value = -int64(v) //nolint:gosec
 	} else {
-		a.value = v
+		a.value = int64(v) //nolint:gosec
 	}
 	a.exp = e
 	return a, nil
+}
+
+// checkDigits ensures the string is composed exclusively of one or more
+// ASCII digits, without signs, spaces or any other symbols.
+func checkDigits(s string) error {
+	if len(s) == 0 {
+		return &strconv.NumError{Func: "ParseInt", Num: s, Err: strconv.ErrSyntax}
+	}
+	for i := 0; i < len(s); i++ {
+		if s[i] < '0' || s[i] > '9' {
+			return &strconv.NumError{Func: "ParseInt", Num: s, Err: strconv.ErrSyntax}
+		}
+	}
+	return nil
 }
 
 // AmountFromHumanString removes any excess decimal places, commas, or
